@@ -46,13 +46,13 @@ theorem plainDirs_of_clear_walk (fs : Fs) (k : CPath → List Name → Bool → 
     · simp only [hd] at hw
       exact ⟨h1, h2, hd, ih _ q h4 hw⟩
 
-theorem plainDirs_of_clear_exists (fs : Fs) (path : Bytes) (hc : Clear fs (start0 path) (chunks path))
-    (he : dirExists fs path = true) : PlainDirs fs (start0 path) (chunks path) := by
+theorem plainDirs_of_clear_exists (fs : Fs) (path : Bytes) (hc : Clear fs (start0 path) (kchunks path))
+    (he : dirExists fs path = true) : PlainDirs fs (start0 path) (kchunks path) := by
   unfold dirExists sysStat resolve at he
   by_cases hne : path = []
-  · subst hne; simp [chunks_nil, PlainDirs]
+  · subst hne; simp [kchunks_nil, PlainDirs]
   · rw [if_neg hne] at he
-    cases hw : walk fs walkFuel (if startsWith47 path = true then [] else cwd) (chunks path) true with
+    cases hw : walk fs walkFuel (if startsWith47 path = true then [] else cwd) (kchunks path) true with
     | found q e =>
       rw [hw] at he
       cases e with
@@ -66,11 +66,11 @@ theorem plainDirs_of_clear_exists (fs : Fs) (path : Bytes) (hc : Clear fs (start
     | missing _ _ => rw [hw] at he; simp at he
     | err _ => rw [hw] at he; simp at he
 
-theorem dirExists_of_plainDirs (fs : Fs) (path : Bytes) (hne : path ≠ []) (hp : PlainDirs fs (start0 path) (chunks path)) :
+theorem dirExists_of_plainDirs (fs : Fs) (path : Bytes) (hne : path ≠ []) (hp : PlainDirs fs (start0 path) (kchunks path)) :
     dirExists fs path = true := by
   unfold dirExists sysStat resolve
   rw [if_neg hne]
-  have : walk fs walkFuel (start0 path) (chunks path) true = .found (start0 path ++ chunks path) .dir := by
+  have : walk fs walkFuel (start0 path) (kchunks path) true = .found (start0 path ++ kchunks path) .dir := by
     cases walkFuel with
     | zero => exact plain_walk_dir fs _ _ _ _ hp
     | succ f => exact plain_walk_dir fs _ _ _ _ hp
@@ -79,14 +79,14 @@ theorem dirExists_of_plainDirs (fs : Fs) (path : Bytes) (hne : path ≠ []) (hp 
 
 /-- all components exist already: mkdir answers EEXIST and Directory::exists says yes -/
 theorem createHere_existing (fs : Fs) (dir : Bytes) (fired : Nat) (hne : dir ≠ [])
-    (hp : PlainDirs fs (start0 dir) (chunks dir)) : (createHere fs dir none fired).2.1 = true := by
+    (hp : PlainDirs fs (start0 dir) (kchunks dir)) : (createHere fs dir none fired).2.1 = true := by
   rw [createHere_iff]
   have hex := dirExists_of_plainDirs fs dir hne hp
   have hadd := createHere_adds fs dir none fired
   apply dirExists_of_plainDirs _ dir hne
   apply plainDirs_congr fs _ _ _ _ hp
   intro k hk1 hk2
-  rcases hadd (start0 dir ++ (chunks dir).take k) with he | ⟨hn, _⟩
+  rcases hadd (start0 dir ++ (kchunks dir).take k) with he | ⟨hn, _⟩
   · exact he
   · -- that prefix is a directory in fs, so it cannot have been missing
     exfalso
@@ -111,7 +111,7 @@ theorem createHere_existing (fs : Fs) (dir : Bytes) (fired : Nat) (hne : dir ≠
 
 /-- the parent chain exists, the last component is missing or a directory: Directory::create's mkdir step succeeds -/
 theorem createHere_last (fs : Fs) (dir : Bytes) (fired : Nat) (cs : List Name) (n : Name) (hne : dir ≠ [])
-    (hch : chunks dir = cs ++ [n]) (hp : PlainDirs fs (start0 dir) cs) (hn1 : n ≠ [46]) (hn2 : n ≠ dotdot)
+    (hch : kchunks dir = cs ++ [n]) (hp : PlainDirs fs (start0 dir) cs) (hn1 : n ≠ [46]) (hn2 : n ≠ dotdot)
     (hlast : fs.get (start0 dir ++ cs ++ [n]) = none ∨ fs.get (start0 dir ++ cs ++ [n]) = some .dir) :
     (createHere fs dir none fired).2.1 = true := by
   rcases hlast with hnone | hdir
@@ -137,10 +137,10 @@ theorem dirCreate_fault_none : ∀ (fuel : Nat) (fs : Fs) (dir : Bytes) (fired :
       cases sysMkdir fs' dir with
       | mk a r => cases r <;> simp [isOk]
     simp only [dirCreate]
-    by_cases hc : getDirectoryName dir ≠ [46] ∧ getDirectoryName dir ≠ [] ∧ dirExists fs (getDirectoryName dir) = false
+    by_cases hc : getDirectoryNameK dir ≠ [46] ∧ getDirectoryNameK dir ≠ [] ∧ dirExists fs (getDirectoryNameK dir) = false
     · rw [if_pos hc]
-      have := ih fs (getDirectoryName dir) fired
-      cases hrec : dirCreate fuel fs (getDirectoryName dir) none fired with
+      have := ih fs (getDirectoryNameK dir) fired
+      cases hrec : dirCreate fuel fs (getDirectoryNameK dir) none fired with
       | mk fs' rest =>
         obtain ⟨r, fault', fired'⟩ := rest
         rw [hrec] at this
@@ -168,20 +168,20 @@ theorem start0_append (d t : Bytes) (hd : d ≠ []) : start0 (d ++ t) = start0 d
 
 /-- Directory::create succeeds when only directories (or nothing) are in the way -/
 theorem dirCreate_succeeds : ∀ (fuel : Nat) (fs : Fs) (dir : Bytes) (fired : Nat), dir.length < fuel →
-    chunks dir ≠ [] → Clear fs (start0 dir) (chunks dir) → (dirCreate fuel fs dir none fired).2.1 = true := by
+    kchunks dir ≠ [] → Clear fs (start0 dir) (kchunks dir) → (dirCreate fuel fs dir none fired).2.1 = true := by
   intro fuel
   induction fuel with
   | zero => intro _ dir _ h; omega
   | succ fuel ih =>
     intro fs dir fired hlen hch hclear
-    have hne : dir ≠ [] := by intro h; subst h; exact hch chunks_nil
+    have hne : dir ≠ [] := by intro h; subst h; exact hch kchunks_nil
     simp only [dirCreate]
-    unfold getDirectoryName
-    cases hs : splitLast isSep dir with
+    unfold getDirectoryNameK
+    cases hs : splitLast isSlash dir with
     | none =>
       simp only [ne_eq, not_true_eq_false, false_and, if_false]
       have hsf := splitLast_none.mp hs
-      have hcd : chunks dir = [] ++ [dir] := by simp [chunks_of_sepfree dir hne hsf]
+      have hcd : kchunks dir = [] ++ [dir] := by simp [kchunks_of_sepfree dir hne hsf]
       have hc1 : Clear fs (start0 dir) ([] ++ [dir]) := by rw [← hcd]; exact hclear
       have hl := clear_last fs [] _ dir hc1
       exact createHere_last fs dir fired [] dir hne hcd trivial hl.1 hl.2.1 hl.2.2
@@ -189,26 +189,26 @@ theorem dirCreate_succeeds : ∀ (fuel : Nat) (fs : Fs) (dir : Bytes) (fired : N
       obtain ⟨d, s, b⟩ := t
       obtain ⟨hdir, hsep, hbsf⟩ := splitLast_some hs
       simp only
-      have hchunks : chunks dir = chunks d ++ chunks b := by rw [hdir, chunks_append_sep d s b hsep]
+      have hchunks : kchunks dir = kchunks d ++ kchunks b := by rw [hdir, kchunks_append_sep d s b hsep]
       -- once the parent chain exists the mkdir step goes through
-      have key : ∀ (fs' : Fs) (f' : Nat), OnlyAddsDirs fs fs' → PlainDirs fs' (start0 dir) (chunks d) →
+      have key : ∀ (fs' : Fs) (f' : Nat), OnlyAddsDirs fs fs' → PlainDirs fs' (start0 dir) (kchunks d) →
           (createHere fs' dir none f').2.1 = true := by
         intro fs' f' hadd hpd
         have hcl' := clear_mono fs fs' hadd _ _ hclear
         by_cases hb : b = []
         · subst hb
-          have : chunks dir = chunks d := by rw [hchunks, chunks_nil, List.append_nil]
+          have : kchunks dir = kchunks d := by rw [hchunks, kchunks_nil, List.append_nil]
           exact createHere_existing fs' dir f' hne (by rw [this]; exact hpd)
-        · have hcb : chunks b = [b] := chunks_of_sepfree b hb hbsf
-          have hcd : chunks dir = chunks d ++ [b] := by rw [hchunks, hcb]
-          have hl := clear_last fs' (chunks d) _ b (by rw [← hcd]; exact hcl')
-          exact createHere_last fs' dir f' (chunks d) b hne hcd hpd hl.1 hl.2.1 hl.2.2
+        · have hcb : kchunks b = [b] := kchunks_of_sepfree b hb hbsf
+          have hcd : kchunks dir = kchunks d ++ [b] := by rw [hchunks, hcb]
+          have hl := clear_last fs' (kchunks d) _ b (by rw [← hcd]; exact hcl')
+          exact createHere_last fs' dir f' (kchunks d) b hne hcd hpd hl.1 hl.2.1 hl.2.2
       by_cases hc : d ≠ [46] ∧ d ≠ [] ∧ dirExists fs d = false
       · rw [if_pos hc]
         have hst : start0 dir = start0 d := by rw [hdir]; exact start0_append d _ hc.2.1
-        have hcld : Clear fs (start0 d) (chunks d) := by
+        have hcld : Clear fs (start0 d) (kchunks d) := by
           rw [← hst]; exact clear_prefix fs _ _ _ (by rw [← hchunks]; exact hclear)
-        have hchd : chunks d ≠ [] := by
+        have hchd : kchunks d ≠ [] := by
           intro h0
           have : dirExists fs d = true := dirExists_of_plainDirs fs d hc.2.1 (by rw [h0]; trivial)
           rw [this] at hc; simp at hc
@@ -234,11 +234,11 @@ theorem dirCreate_succeeds : ∀ (fuel : Nat) (fs : Fs) (dir : Bytes) (fired : N
       · rw [if_neg hc]
         apply key fs fired (OnlyAddsDirs.refl fs)
         by_cases hd0 : d = []
-        · subst hd0; simp [chunks_nil, PlainDirs]
+        · subst hd0; simp [kchunks_nil, PlainDirs]
         · by_cases hd1 : d = [46]
           · exfalso
             subst hd1
-            have : chunks dir = [46] :: chunks b := by rw [hchunks]; rfl
+            have : kchunks dir = [46] :: kchunks b := by rw [hchunks]; rfl
             rw [this] at hclear
             exact hclear.1 rfl
           · have hex : dirExists fs d = true := by
@@ -246,7 +246,7 @@ theorem dirCreate_succeeds : ∀ (fuel : Nat) (fs : Fs) (dir : Bytes) (fired : N
               | true => rfl
               | false => exact absurd ⟨hd1, hd0, hh⟩ hc
             have hst : start0 dir = start0 d := by rw [hdir]; exact start0_append d _ hd0
-            have hcld : Clear fs (start0 d) (chunks d) := by
+            have hcld : Clear fs (start0 d) (kchunks d) := by
               rw [← hst]; exact clear_prefix fs _ _ _ (by rw [← hchunks]; exact hclear)
             rw [hst]
             exact plainDirs_of_clear_exists fs d hcld hex
